@@ -51,7 +51,7 @@ META = {
     'shrink_budget': 60,
     'enum_batch': {'quick': 6, 'thorough': 12},
 }
-RUN_TIMEOUT = 900
+RUN_TIMEOUT = 3600
 JOB = 'sim.props.c20:job'
 
 
@@ -460,7 +460,7 @@ class Sim(object):
     def lifetime(self, i, R, crash=None):
         setup = {'root': self.root, 'cwd': self.root, 'clock': self.clock, 'crash': crash,
                  'env': {'environ': {'HOME': self.root, 'TEXINPUTS': self.root}}}
-        return lifetimes.run_lifetime(JOB, {'file': self.jn(i) + '.tex', 'renderer': R}, setup, timeout=120)
+        return lifetimes.run_lifetime(JOB, {'file': self.jn(i) + '.tex', 'renderer': R}, setup, timeout=600)
 
     # -- ops
     def run(self, ops):
@@ -624,7 +624,7 @@ class Sim(object):
                 'bits': op.get('bits')}
         setup = {'root': self.root, 'cwd': self.root, 'clock': self.clock,
                  'env': {'environ': {'HOME': self.root, 'TEXINPUTS': self.root}}}
-        st, out = lifetimes.run_lifetime('sim.props.c20:sweep_job', args, setup, timeout=600)
+        st, out = lifetimes.run_lifetime('sim.props.c20:sweep_job', args, setup, timeout=1500)
         if st != 'ok' or not out.get('ok'):
             raise core.HarnessError('idle sweep lifetime failed: %r' % (out and out.get('traceback'),))
         r = out['result']
